@@ -178,12 +178,18 @@ macro_rules! xx_finish {
 //@ unwind: 72
 //@ bounds: any hasher state; buffered lengths of the instance; both the short (< 32 bytes in total) and the long (>= 32) branch
 //@ desc: finish64 of any state equals the XXH64 specification: lane convergence + merge rounds (long) or seed + P5 (short), + length, 8/4/1-byte tail steps, avalanche
-xx_finish!(c16_xxh_finish_short_a, false, [0, 1, 3]); //@ tier: quick
-xx_finish!(c16_xxh_finish_short_b, false, [4, 7, 8]); //@ tier: quick
-xx_finish!(c16_xxh_finish_short_c, false, [9, 12, 31]); //@ tier: quick
-xx_finish!(c16_xxh_finish_long_a, true, [0, 1, 4]); //@ tier: quick
-xx_finish!(c16_xxh_finish_long_b, true, [7, 8, 15]); //@ tier: quick
-xx_finish!(c16_xxh_finish_long_c, true, [24, 31]); //@ tier: quick
+xx_finish!(c16_xxh_finish_short_len0, false, [0]); //@ tier: quick
+xx_finish!(c16_xxh_finish_short_len1, false, [1]); //@ tier: quick
+xx_finish!(c16_xxh_finish_short_len4, false, [4]); //@ tier: quick
+xx_finish!(c16_xxh_finish_short_len8, false, [8]); //@ tier: quick
+xx_finish!(c16_xxh_finish_long_len0, true, [0]); //@ tier: quick
+xx_finish!(c16_xxh_finish_long_len5, true, [5]); //@ tier: quick
+xx_finish!(c16_xxh_finish_short_a, false, [0, 1, 3]);
+xx_finish!(c16_xxh_finish_short_b, false, [4, 7, 8]);
+xx_finish!(c16_xxh_finish_short_c, false, [9, 12, 31]);
+xx_finish!(c16_xxh_finish_long_a, true, [0, 1, 4]);
+xx_finish!(c16_xxh_finish_long_b, true, [7, 8, 15]);
+xx_finish!(c16_xxh_finish_long_c, true, [24, 31]);
 xx_finish!(c16_xxh_finish_short_d, false, [2, 5, 6]);
 xx_finish!(c16_xxh_finish_short_e, false, [10, 11, 13]);
 xx_finish!(c16_xxh_finish_short_f, false, [14, 15, 16]);
